@@ -62,6 +62,7 @@ def shards(tier):
     # cross-object histories: the closure argument above assumes that a Frame's behaviour depends on its own
     # (width, value) only.  Every ordered pair of widths is therefore explored inside ONE process (three states
     # of the first width, then three of the second, all operations): anything remembered across objects shows.
+    out.append(("subclasses",))
     CW = [1, 2, 3, 5, 7, 8, 9, 16, 24]
     for a in CW:
         out.append(("cross", a, tuple(b for b in CW if b != a)))
@@ -315,6 +316,53 @@ def run_shard(shard):
         for v in vals:
             explore_state(Frame, w, v, res, grid, values_for, small_frames, eq_states, (0, 1, nb - 1, nb, nb + 1))
         sample(res, {"state": [w, hex(vals[4])], "index_grid": grid})
+    elif shard[0] == "subclasses":
+        # "equality means same width and same bits" and all operations - also for the frame SUBCLASSES the library hands out
+        # (ForwardFrame of any width, BackwardFrame and BackwardFrameError with their fixed 8 bits)
+        from dali import frame as FM
+
+        def factory(kind):
+            def F(w, v):
+                if kind == "forward":
+                    return FM.ForwardFrame(w, v)
+                if w == 8 and isinstance(v, int):
+                    return FM.BackwardFrame(v) if kind == "backward" else FM.BackwardFrameError(v)
+                return Frame(w, v)
+            return F
+        for kind in ("forward", "backward", "backward-error"):
+            F = factory(kind)
+            for w in ((8,) if kind != "forward" else (1, 8, 16, 24, 25)):
+                idxs = sorted(set([-1, 0, 1, 7, 8, w - 1, w]))
+                vf = (lambda n: sorted(set([-1, 0, 1, (1 << n) // 2, (1 << n) - 1, 1 << n])))
+                vals = range(1 << w) if w == 8 else sorted(set([0, 1, (1 << w) - 1, int("10" * 13, 2) & ((1 << w) - 1)]))
+                for v in vals:
+                    if w == 8 and v % 5 and v not in (0, 1, 254, 255):
+                        continue
+                    explore_state(F, w, v, res, idxs, vf, [(1, 1), (8, 0xA5), (16, 0x1234)], [(w, v), (w, v ^ 1), (8, 0), (16, 0)], (0, 1, 2, 3))
+        for v in range(256):
+            objs = {"Frame": Frame(8, v), "ForwardFrame": FM.ForwardFrame(8, v), "BackwardFrame": FM.BackwardFrame(v), "BackwardFrameError": FM.BackwardFrameError(v)}
+            other = {"Frame": Frame(8, v ^ 0x10), "BackwardFrameError": FM.BackwardFrameError(v ^ 0x10), "Frame9": Frame(9, v)}
+            for an, a in objs.items():
+                for bn, b in objs.items():
+                    res["transitions"] += 1
+                    if (a == b) is not True or (a != b) is not False:
+                        add_violation(res, "C05:eq-subclass", f"{an}(8,{v:#x}) == {bn}(8,{v:#x}) is {a == b}, != is {a != b}: same width and bits",
+                                      {"op": "eq-subclass", "w": 8, "v": v, "a": an, "b": bn})
+                for bn, b in other.items():
+                    res["transitions"] += 1
+                    if (a == b) is not False or (a != b) is not True or (b == a) is not False:
+                        add_violation(res, "C05:eq-subclass", f"{an}(8,{v:#x}) == {bn} with different width/bits is {a == b}",
+                                      {"op": "eq-subclass", "w": 8, "v": v, "a": an, "b": bn})
+                for view in (a.pack, a.as_byte_sequence, a.as_integer, a.pack_len(1), a.pack_len(3)):
+                    res["transitions"] += 1
+                    if not (Frame(8, view) == a and a == Frame(8, view)) or (Frame(8, view) != a):
+                        add_violation(res, "C05:rebuild-subclass", f"Frame(8, {view!r}) is not equal to the {an} it was taken from",
+                                      {"op": "eq-subclass", "w": 8, "v": v, "a": an, "b": "view"})
+            res["evaluations"] += 1
+        for v_ in res["violations"]:
+            v_["case"]["subclass"] = True
+        res["distinct"].add(("subclasses", "ok"))
+        sample(res, {"subclasses": ["ForwardFrame", "BackwardFrame", "BackwardFrameError"]})
     elif shard[0] == "cross":
         _, wa, others = shard
         for wb in others:
@@ -372,6 +420,8 @@ def replay(case):
     if case.get("op") == "ctor":
         r = run_shard(("ctor", 8))
         return r["violations"]
+    if case.get("op") == "eq-subclass" or case.get("subclass"):
+        return run_shard(("subclasses",))["violations"]
     if case.get("cross"):
         return run_shard(("cross", case["cross"][0], tuple(case["cross"][1])))["violations"]
     w, v = case["w"], case["v"]
